@@ -58,6 +58,7 @@ def call_op(mods, o, tree):
 
 
 def record_case(cid, T, ops, mods, seed, origin='tlc', shuffle=True, exotic=True):
+    mods = mods or treeio.repo_modules()
     rnd = random.Random(seed)
     trees = mods['trees']
     protect = set(trees.PUNCT) | {'-NONE-'}
